@@ -45,6 +45,13 @@ def trustUsername (st : Static) (c : Ctx) (name : Bytes) : M Ctx := do
     gateNested st c
   else pure c
 
+/-- the name `iauth_class_rule_check` passes to `iauth_trust_username`:
+    `req->cli_username + (req->cli_username[0] == '~')` -/
+def trustName (r : Req) : Bytes := r.cliUser.drop (if r.cliUser.head? == some 126 then 1 else 0)
+
+/-- `rule->trust_username && (req->auth_username[0] == '~')` -/
+def wantsTrust (rule : Rule) (r : Req) : Bool := rule.trustUsername && r.authUser.head? == some 126
+
 /-- `iauth_class_foreach_rule(iauth_class_rule_check, req)`; returns the context and the
     rules with the hit counter of the applied rule bumped -/
 def classRules (st : Static) : List Rule → Ctx → M (Ctx × List Rule)
@@ -52,9 +59,7 @@ def classRules (st : Static) : List Rule → Ctx → M (Ctx × List Rule)
   | rule :: rest, c =>
     if ruleMatches c.svcs rule c.req then do
       let c ←
-        if rule.trustUsername && c.req.authUser.head? == some 126 then
-          let ofs := if c.req.cliUser.head? == some 126 then 1 else 0
-          trustUsername st c (c.req.cliUser.drop ofs)
+        if wantsTrust rule c.req then trustUsername st c (trustName c.req)
         else pure c
       let c := updReq c fun r => { r with cls := strlcpy63 (rule.cls.getD rule.name) }
       pure (c, { rule with assigned := rule.assigned + 1 } :: rest)
@@ -113,37 +118,44 @@ def xqUsername (r : Req) : Bytes :=
 
 def xqHostname (r : Req) : Bytes := if r.hostname.isEmpty then r.textAddr else r.hostname
 
+/-- the four `continue` tests of the service loop of `iauth_xquery_check` -/
+def xqEligible (isPassword : Bool) (srv : Svc) (cli : XqCli) (i : Nat) (flags : Flags) : Bool :=
+  srv.configured
+  && !(cli.sent.contains i && (!isPassword || srv.ty == .dronecheck))     -- already asked this server
+  && !((srv.ty == .login || srv.ty == .loginIpr) && cli.cred.isEmpty)     -- no login-type request without password
+  && srv.ty.prereq.subset flags                                           -- necessary information present
+
+/-- the X lines one eligible service gets (CHECK and/or LOGIN / LOGIN2) -/
+def xqQueryLines (srv : Svc) (cli : XqCli) (r : Req) : List Bytes :=
+  let tag := routing r
+  -- the user name is only computed when some non-LOGIN service needs it; it is a function
+  -- of the request, so computing it per service is the same
+  let user := if srv.ty != .login then xqUsername r else []
+  let host := xqHostname r
+  (if srv.ty == .dronecheck || srv.ty == .combined then
+     [xquery srv.name tag (b "CHECK " ++ r.nick ++ sp ++ user ++ sp ++ r.textAddr ++ sp ++ host ++ b " :" ++ r.real)]
+   else [])
+  ++ (if cli.cred.isEmpty then []
+      else if srv.ty == .login || srv.ty == .combined then [xquery srv.name tag (b "LOGIN " ++ cli.cred)]
+      else if srv.ty == .loginIpr then
+        [xquery srv.name tag (b "LOGIN2 " ++ r.textAddr ++ sp ++ host ++ sp ++ user ++ sp ++ cli.cred)]
+      else [])
+
+/-- bookkeeping after the queries: service counters, the first outstanding query takes
+    one soft hold -/
+def xqTake (c : Ctx) (srv : Svc) (cli : XqCli) (i : Nat) : Ctx :=
+  let c := { c with svcs := setSvc c.svcs i (some { srv with queries := srv.queries + 1, refs := srv.refs + 1 }) }
+  if cli.ref.isEmpty then updReq c fun r => { r with soft := r.soft + 1 } else c
+
 /-- one iteration of the service loop of `iauth_xquery_check` for slot `i` -/
 def xqCheckSlot (isPassword : Bool) (c : Ctx) (cli : XqCli) (i : Nat) : Ctx × XqCli :=
   match getSvc c.svcs i with
   | none => (c, cli)
   | some srv =>
-    if !srv.configured then (c, cli)
-    else if cli.sent.contains i && (!isPassword || srv.ty == .dronecheck) then (c, cli)
-    else if (srv.ty == .login || srv.ty == .loginIpr) && cli.cred.isEmpty then (c, cli)
-    else if !(srv.ty.prereq.subset c.req.flags) then (c, cli)
+    if !xqEligible isPassword srv cli i c.req.flags then (c, cli)
     else
-      let r := c.req
-      let tag := routing r
-      -- the user name is only computed when some non-LOGIN service needs it; it is a
-      -- function of the request, so computing it here is the same
-      let user := if srv.ty != .login then xqUsername r else []
-      let host := xqHostname r
-      let c :=
-        if srv.ty == .dronecheck || srv.ty == .combined then
-          c.emit (xquery srv.name tag (b "CHECK " ++ r.nick ++ sp ++ user ++ sp ++ r.textAddr ++ sp ++ host ++ b " :" ++ r.real))
-        else c
-      let c :=
-        if cli.cred.isEmpty then c
-        else if srv.ty == .login || srv.ty == .combined then
-          c.emit (xquery srv.name tag (b "LOGIN " ++ cli.cred))
-        else if srv.ty == .loginIpr then
-          c.emit (xquery srv.name tag (b "LOGIN2 " ++ r.textAddr ++ sp ++ host ++ sp ++ user ++ sp ++ cli.cred))
-        else c
-      let srv' := { srv with queries := srv.queries + 1, refs := srv.refs + 1 }
-      let c := { c with svcs := setSvc c.svcs i (some srv') }
-      let c := if cli.ref.isEmpty then updReq c fun r => { r with soft := r.soft + 1 } else c
-      (c, { cli with ref := maskAdd cli.ref i, sent := maskAdd cli.sent i })
+      let c := { c with out := c.out ++ xqQueryLines srv cli c.req }
+      (xqTake c srv cli i, { cli with ref := maskAdd cli.ref i, sent := maskAdd cli.sent i })
 
 def xqCheckLoop (isPassword : Bool) : List Nat → Ctx → XqCli → Ctx × XqCli
   | [], c, cli => (c, cli)
@@ -254,6 +266,31 @@ def findRefSlot (svcs : List (Option Svc)) (cli : XqCli) (service : Bytes) : Opt
 
 def startsWith (p s : Bytes) : Bool := s.take p.length == p
 
+/-- the common tail of `iauth_xquery_x_reply`: clear the ref bit, drop the service
+    reference, release the soft hold with the last outstanding query, run the gate -/
+def xqFinish (st : Static) (i : Nat) (c : Ctx) (cli : XqCli) (srv : Svc) : M Ctx :=
+  let cli := { cli with ref := maskDel cli.ref i }
+  let srv := { srv with refs := srv.refs - 1 }
+  let c := { c with svcs := setSvc c.svcs i (some srv) }
+  let c := if srv.refs == 0 then unrefSvc c i else c
+  let c := if cli.ref.isEmpty then updReq c fun r => { r with soft := r.soft - 1 } else c
+  let c := updReq c fun r => { r with xq := some cli }
+  gate st c
+
+/-- is this `OK` / `OK <account>`?  `some none` = no stamp, `some (some a)` = stamp text -/
+def okStamp (rep : Bytes) : Option (Option Bytes) :=
+  if startsWith (b "OK") rep && (rep.length == 2 || rep.getD 2 0 == 32) then
+    if rep.length == 2 || rep.length == 3 || rep.getD 3 0 == 32 then some none
+    else some (some (rep.drop 3))
+  else none
+
+/-- `OK <account>` from a login-capable service: stamp, release the +! hold once, +x -/
+def xqVouch (c : Ctx) (cli : XqCli) (stamp : Bytes) : Ctx :=
+  let hadAccount := !c.req.account.isEmpty
+  let c := updReq c fun r => { r with account := setAccount stamp }
+  let c := if cli.modeBang && !hadAccount then updReq c fun r => { r with holds := r.holds - 1 } else c
+  if cli.modeX || cli.modeBang then c.emit (sendReq c.req (b "M") (b " :+x")) else c
+
 /-- `iauth_xquery_x_reply` once the request is validated; `reply = none` is "unlinked" -/
 def xqReply (st : Static) (c : Ctx) (service : Bytes) (reply : Option Bytes) : M Ctx :=
   match c.req.xq with
@@ -262,45 +299,31 @@ def xqReply (st : Static) (c : Ctx) (service : Bytes) (reply : Option Bytes) : M
     match findRefSlot c.svcs cli service with
     | none => pure c
     | some (i, srv) =>
-      let finish (c : Ctx) (cli : XqCli) (srv : Svc) : M Ctx := do
-        let cli := { cli with ref := maskDel cli.ref i }
-        let srv := { srv with refs := srv.refs - 1 }
-        let c := { c with svcs := setSvc c.svcs i (some srv) }
-        let c := if srv.refs == 0 then unrefSvc c i else c
-        let c := if cli.ref.isEmpty then updReq c fun r => { r with soft := r.soft - 1 } else c
-        let c := updReq c fun r => { r with xq := some cli }
-        gate st c
       match reply with
       | none =>
-        let srv := { srv with unlinked := srv.unlinked + 1 }
         let c := if srv.ty != .dronecheck then
             c.emit (sendReq c.req (b "C") (b " :The login server is currently disconnected.  Please excuse the inconvenience."))
           else c
-        finish c cli srv
+        xqFinish st i c cli { srv with unlinked := srv.unlinked + 1 }
       | some rep =>
-        if startsWith (b "OK") rep && (rep.length == 2 || rep.getD 2 0 == 32) then
+        match okStamp rep with
+        | some none =>
+          xqFinish st i c { cli with ok := maskAdd cli.ok i } { srv with goodNoAcct := srv.goodNoAcct + 1 }
+        | some (some stamp) =>
           let cli := { cli with ok := maskAdd cli.ok i }
-          if rep.length == 2 || rep.length == 3 || rep.getD 3 0 == 32 then
-            -- plain OK, or OK followed by a blank account: no stamp
-            finish c cli { srv with goodNoAcct := srv.goodNoAcct + 1 }
-          else if srv.ty == .login || srv.ty == .loginIpr || srv.ty == .combined then
-            let hadAccount := !c.req.account.isEmpty
-            let c := updReq c fun r => { r with account := setAccount (rep.drop 3) }
-            let c := if cli.modeBang && !hadAccount then updReq c fun r => { r with holds := r.holds - 1 } else c
-            let c := if cli.modeX || cli.modeBang then c.emit (sendReq c.req (b "M") (b " :+x")) else c
-            finish c cli { srv with goodAcct := srv.goodAcct + 1 }
+          if srv.ty == .login || srv.ty == .loginIpr || srv.ty == .combined then
+            xqFinish st i (xqVouch c cli stamp) cli { srv with goodAcct := srv.goodAcct + 1 }
           else
-            finish c cli { srv with goodNoAcct := srv.goodNoAcct + 1 }
-        else if startsWith (b "NO ") rep then
-          let srv := { srv with bad := srv.bad + 1, badAcct := srv.badAcct + (if c.req.account.isEmpty then 0 else 1) }
-          let c := { c with svcs := setSvc c.svcs i (some srv) }
-          kill c (rep.drop 3)
-        else if startsWith (b "AGAIN ") rep then
-          finish (c.emit (sendReq c.req (b "C") (b " :" ++ rep.drop 6))) cli srv
-        else if startsWith (b "MORE ") rep then
-          let cli := { cli with more := maskAdd cli.more i }
-          finish (c.emit (sendReq c.req (b "C") (b " :" ++ rep.drop 5))) cli srv
-        else pure c
+            xqFinish st i c cli { srv with goodNoAcct := srv.goodNoAcct + 1 }
+        | none =>
+          if startsWith (b "NO ") rep then
+            let srv := { srv with bad := srv.bad + 1, badAcct := srv.badAcct + (if c.req.account.isEmpty then 0 else 1) }
+            kill { c with svcs := setSvc c.svcs i (some srv) } (rep.drop 3)
+          else if startsWith (b "AGAIN ") rep then
+            xqFinish st i (c.emit (sendReq c.req (b "C") (b " :" ++ rep.drop 6))) cli srv
+          else if startsWith (b "MORE ") rep then
+            xqFinish st i (c.emit (sendReq c.req (b "C") (b " :" ++ rep.drop 5))) { cli with more := maskAdd cli.more i } srv
+          else pure c
 
 /-! ### core: per-request events from the server -/
 
